@@ -39,6 +39,13 @@ def replay(tag, rec):
                'flipping the last indicator changed the text')
     except Exception as e:  # noqa
         cl('writer_tokens_equal_spec', False, 'exception %s: %s' % (type(e).__name__, e))
+    # the presentation the generator itself uses: numpy arrays (np.random.choice indicators, numpy entries)
+    try:
+        import numpy as np
+        realnp = [str(x) for x in gs.create_string_pref(np.array(lst, dtype=np.int64), np.array(ties, dtype=np.int64))]
+        cl('writer_tokens_equal_spec_numpy_arguments', realnp == toks, 'real writer on numpy arrays %r, spec %r' % (realnp, toks))
+    except Exception as e:  # noqa
+        cl('writer_tokens_equal_spec_numpy_arguments', False, 'numpy arguments: exception %s: %s' % (type(e).__name__, e))
     # reader on the specification's text
     rd = getattr(fileIO, '_get_simple_pref_list_and_ranks', None)
     if rd is not None:
